@@ -775,6 +775,233 @@ def run(ctx, anchors=None):
                      % (n.get("callee"), K, atxt[:50], why))
     ctx.floor("R15.7", ncs, 8, "call sites of size-precondition functions in authored units")
 
+    # ---- R15.7c assert-backed CHARACTER preconditions: `for (c : P) assert(pred(c))` over a parameter P. Every argument that
+    # reaches P from authored code must be made of characters that satisfy pred: a string literal that does, the result of a
+    # sanitiser whose output cannot contain the rejected characters (ToLower when only 'A'..'Z' are rejected), or - through a
+    # global - only such values.
+    def char_pred(cond, var_d):
+        """-> function(ch) evaluating the assert condition for one character, or None if it is not a pure comparison formula"""
+        def ev(n, ch):
+            k = n.get("k")
+            if k in ("cast", "paren"):
+                return ev(n["e"], ch)
+            if k == "ref" and n.get("d") == var_d:
+                return ch
+            cv = astq.const_value(n)
+            if cv is not None:
+                return cv
+            if k == "bin" and n["op"] in ("||", "&&", "<", ">", "<=", ">=", "==", "!="):
+                a, b = ev(n["lhs"], ch), ev(n["rhs"], ch)
+                if a is None or b is None:
+                    return None
+                return {"||": lambda: int(bool(a) or bool(b)), "&&": lambda: int(bool(a) and bool(b)), "<": lambda: int(a < b), ">": lambda: int(a > b),
+                        "<=": lambda: int(a <= b), ">=": lambda: int(a >= b), "==": lambda: int(a == b), "!=": lambda: int(a != b)}[n["op"]]()
+            if k == "un" and n.get("op") == "!":
+                a = ev(n["e"], ch)
+                return None if a is None else int(not a)
+            return None
+        if ev(cond, 65) is None:
+            return None
+        return lambda ch: bool(ev(cond, ch))
+    cpre = {}
+    for f in fb.funcs.values():
+        for n in f.nodes():
+            if n["k"] != "forrange" or n.get("range") is None:
+                continue
+            r = n["range"]
+            while r.get("k") in ("cast", "paren"):
+                r = r["e"]
+            if r.get("k") != "ref" or r.get("dk") != "parm":
+                continue
+            for m in walk(n["body"]):
+                if m["k"] == "cond" and any(x["k"] == "call" and x.get("n") == "__assert_fail" for x in walk(m)):
+                    pr = char_pred(m["cond"], n.get("vard"))
+                    if pr is not None:
+                        for i, p_ in enumerate(f.params):
+                            if p_["d"] == r.get("d"):
+                                cpre[f.id] = (i, frozenset(ch for ch in range(1, 128) if not pr(ch)), f)
+    ctx.site(len(cpre))
+
+    def chars_ok(f, e, rejected, depth=0):
+        """(ok, why) - can the string expression e contain a rejected character?"""
+        while e is not None and (e.get("k") in ("cast", "paren", "defarg", "opaque") or (e.get("k") == "ctor" and e.get("args") and (e.get("copy") or e.get("mrec") in ("std::basic_string", "std::basic_string_view")))):
+            e = e["e"] if "e" in e else e["args"][0]
+        if e is None:
+            return False, "unknown value"
+        if e.get("k") == "str":
+            badc = sorted({c_ for c_ in e.get("s", "") if ord(c_) in rejected})
+            return (not badc), ("the literal \"%s\"%s" % (e.get("s"), " contains %s" % badc if badc else ""))
+        if e.get("k") == "cond":
+            a, wa = chars_ok(f, e["then"], rejected, depth)
+            b, wb = chars_ok(f, e["else"], rejected, depth)
+            return a and b, (wa if not a else wb)
+        if astq.is_call(e) and (e.get("callee") or e.get("n") or "").split("::")[-1] == "ToLower" and rejected <= frozenset(range(65, 91)):
+            return True, "ToLower(...) cannot contain 'A'..'Z'"
+        if e.get("k") == "ref" and e.get("dk") == "global" and depth < 2:
+            g = fb.var(e["n"], optional=True)
+            srcs = []
+            if g is not None and g.get("init") is not None:
+                srcs.append((None, g["init"]))
+            for h in fb.funcs.values():
+                if not auth(h):
+                    continue
+                for n_ in h.nodes():
+                    lhs = rhs = None
+                    if n_["k"] == "assign":
+                        lhs, rhs = n_["lhs"], n_["rhs"]
+                    elif n_["k"] == "opcall" and n_.get("op") == "=" and len(n_["args"]) == 2:
+                        lhs, rhs = n_["args"]
+                    if lhs is not None and lhs.get("k") == "ref" and lhs.get("dk") == "global" and lhs.get("n") == e["n"]:
+                        srcs.append((h, rhs))
+            for (h, rhs) in srcs:
+                okk, why = chars_ok(h, rhs, rejected, depth + 1)
+                if not okk:
+                    return False, "%s is assigned %s%s" % (e["n"], astq.estr(rhs)[:60], (" at " + h.loc(rhs)) if h is not None else "")
+            return True, "every value stored in %s satisfies it" % e["n"]
+        return False, "`%s` is not a checked value" % astq.estr(e)[:50]
+    ncc = 0
+    for f in fb.funcs.values():
+        if not auth(f):
+            continue
+        for n in f.nodes():
+            if not (astq.is_call(n) and n.get("cid") in cpre):
+                continue
+            i, rejected, g = cpre[n["cid"]]
+            obj, args = astq.call_args(n)
+            if i >= len(args) or args[i] is None:
+                continue
+            ncc += 1
+            ctx.site()
+            okc, why = chars_ok(f, args[i], rejected)
+            rj = "".join(chr(c_) for c_ in sorted(rejected))
+            ctx.inst(okc, "R15.7", "char-precond=%s(%s)@%s" % (g.name.split("::")[-1], astq.estr(args[i])[:24], f.name), f.loc(n),
+                     "%s asserts that no character of its argument is in [%s]: %s" % (g.name, rj[:30], why),
+                     "%s asserts that no character of its argument is in [%s], but %s: such a value aborts the process on the assertion" % (g.name, rj[:30], why))
+    if cpre and not ncc:
+        raise AnalysisBroken("R15.7c: functions with a character precondition exist but no authored call site was found")
+
+    # ---- R15.13 recursion inventory. Stack depth is the one resource no bounds check protects: every cycle of the resolved call
+    # graph (G-CG, strongly connected components) must be a reviewed one whose depth is bounded for a stated reason; a cycle
+    # driven by input nesting must contain a rejecting comparison of a local counter with a constant, and no variable-length
+    # array may be live across a call back into its cycle (stack use per level must not grow with the input either).
+    REVIEWED = {
+        frozenset(["Value::Value", "Value::parse_args"]): ("guard", "one level per [bracket level of the input; bounded by the nesting limit checked while scanning"),
+        frozenset(["DeferringSignatureChecker::CheckECDSASignature"]): ("fixed", "delegation to the wrapped checker object; depth = number of wrappers, fixed by the program"),
+        frozenset(["DeferringSignatureChecker::CheckSchnorrSignature"]): ("fixed", "delegation to the wrapped checker object"),
+        frozenset(["DeferringSignatureChecker::CheckLockTime"]): ("fixed", "delegation to the wrapped checker object"),
+        frozenset(["DeferringSignatureChecker::CheckSequence"]): ("fixed", "delegation to the wrapped checker object"),
+        frozenset(["TapBranch::ToString"]): ("fixed", "depth of the tap tree = log2(script count); the script count is limited to 1024 by tap's main"),
+        frozenset(["TapBranch::Prove"]): ("fixed", "depth of the tap tree = log2(script count)"),
+    }
+    ctx.rule("R15.13", "every recursion cycle of the call graph is a reviewed one with a depth bound; input-driven cycles carry a nesting limit and no variable-length array across the recursive call")
+    graph = {}
+    for f in fb.funcs.values():
+        if f.body is not None:
+            graph[f.id] = {c_.id for (_n, c_) in prog.callees(f) if c_.body is not None}
+    sccs = []
+    index, low, onst, stack_, cnt = {}, {}, set(), [], [0]
+    for root in graph:
+        if root in index:
+            continue
+        work = [(root, iter(sorted(graph[root])))]
+        index[root] = low[root] = cnt[0]
+        cnt[0] += 1
+        stack_.append(root)
+        onst.add(root)
+        while work:
+            v, it_ = work[-1]
+            adv = False
+            for w in it_:
+                if w not in graph:
+                    continue
+                if w not in index:
+                    index[w] = low[w] = cnt[0]
+                    cnt[0] += 1
+                    stack_.append(w)
+                    onst.add(w)
+                    work.append((w, iter(sorted(graph[w]))))
+                    adv = True
+                    break
+                elif w in onst:
+                    low[v] = min(low[v], index[w])
+            if adv:
+                continue
+            work.pop()
+            if work:
+                low[work[-1][0]] = min(low[work[-1][0]], low[v])
+            if low[v] == index[v]:
+                comp = []
+                while True:
+                    w = stack_.pop()
+                    onst.discard(w)
+                    comp.append(w)
+                    if w == v:
+                        break
+                if len(comp) > 1 or v in graph[v]:
+                    sccs.append(comp)
+    ctx.site(len(graph))
+    for comp in sorted(sccs, key=lambda c_: sorted(fb.funcs[x].name for x in c_)):
+        fs = [fb.funcs[x] for x in comp]
+        names = frozenset(f_.name for f_ in fs)
+        key = "cycle=" + "+".join(sorted(names))
+        rv = REVIEWED.get(names)
+        if rv is None:
+            ctx.fail("R15.13", key, fs[0].loc(), "recursion cycle {%s} is not a reviewed one: nothing bounds its depth that this check knows of (a nested or self-referential input "
+                     "can exhaust the stack)" % ", ".join(sorted(names)))
+            continue
+        kind, why = rv
+        ids = set(comp)
+        # no variable-length array live across a call back into the cycle
+        vla = []
+        for f_ in fs:
+            for n in f_.nodes():
+                if n["k"] != "decl":
+                    continue
+                for d in n["decls"]:
+                    ty = d.get("ty") or ""
+                    if "[" in ty and ty.endswith("]") and d.get("arraysize") is None and not ty.endswith("[]"):
+                        scope = None
+                        for a in f_.ancestors(n):
+                            if a.get("k") in ("compound", "block"):
+                                scope = a
+                                break
+                        inner = list(walk(scope)) if scope is not None else list(f_.nodes())
+                        if any(astq.is_call(x) and any(g_.id in ids for g_ in (prog.resolve(x["cid"]) if x.get("cid") else [])) for x in inner) or \
+                           any((x.get("k") in ("call", "mcall") and x.get("n") in ("emplace_back", "emplace")) for x in inner):
+                            vla.append((f_, n, d))
+        ctx.inst(not vla, "R15.13", key + ":no-vla-across-recursion", (vla[0][0].loc(vla[0][1]) if vla else fs[0].loc()),
+                 "no variable-length array is live across a call back into the cycle {%s}" % ", ".join(sorted(names)),
+                 "%s %s is live across the recursive call in %s: every level of recursion adds a stack array whose size is taken from the input" %
+                 ((vla[0][2].get("ty"), vla[0][2]["n"], vla[0][0].name) if vla else ("", "", "")))
+        if kind == "guard":
+            guards = []
+            for f_ in fs:
+                for n in f_.nodes():
+                    if n["k"] != "if":
+                        continue
+                    c_ = n["cond"]
+                    while c_ is not None and c_.get("k") in ("cast", "paren"):
+                        c_ = c_["e"]
+                    if c_ is None or c_.get("k") != "bin" or c_["op"] not in (">", ">=", "<", "<="):
+                        continue
+                    l_, r_ = c_["lhs"], c_["rhs"]
+                    while l_.get("k") in ("cast", "paren"):
+                        l_ = l_["e"]
+                    while r_.get("k") in ("cast", "paren"):
+                        r_ = r_["e"]
+                    var, con = (l_, r_) if c_["op"] in (">", ">=") else (r_, l_)
+                    if var.get("k") == "ref" and var.get("dk") == "local" and astq.const_value(con) is not None and astq.const_value(con) > 1:
+                        leaves = any((x["k"] == "call" and x.get("n") in ("exit", "abort", "_exit")) or x["k"] in ("return", "throw") for x in walk(n["then"]))
+                        upd = any((x["k"] in ("cassign",) and x["lhs"].get("d") == var.get("d")) or (x["k"] == "un" and x.get("op") in ("++",) and x["e"].get("d") == var.get("d")) for x in f_.nodes())
+                        if leaves and upd:
+                            guards.append((f_, n, astq.const_value(con)))
+            ctx.inst(bool(guards), "R15.13", key + ":nesting-limit", guards[0][0].loc(guards[0][1]) if guards else fs[0].loc(),
+                     "the cycle {%s} rejects when a local counter exceeds %s (%s)" % (", ".join(sorted(names)), guards[0][2] if guards else "?", why),
+                     "the cycle {%s} recurses once per nesting level of its input and nothing limits the nesting: `btcc '[[[[...1500 deep...]]]]'` overflows the stack" % ", ".join(sorted(names)))
+        else:
+            ctx.ok("R15.13", key + ":reviewed", fs[0].loc(), why)
+    ctx.floor("R15.13", len(sccs), 3, "recursion cycles in the call graph")
+
     # ---------------------------------------------------------------- R15.9
     ev = fb.fn("Instance::eval", file="instance.cpp")
     opstep = fb.fn("StepScript", file="script/interpreter.cpp")
@@ -989,6 +1216,11 @@ def callers_establish(fb, prog, ctor, a, K):
 
 
 MUTANTS = [
+    dict(name="nesting-limit-removed", file="value.h", find="                    if (depth > MAX_BRACKET_DEPTH) {\n                        fprintf(stderr, \"parse error, [brackets nested more than %zu deep\\n\", MAX_BRACKET_DEPTH);\n                        exit(1);\n                    }\n", replace="", expect=["R15.13:cycle=Value::Value+Value::parse_args:nesting-limit"]),
+    dict(name="token-array-on-the-stack", file="value.h", find="        std::vector<char*> args_ptr;\n", replace="        char* args_ptr_[args_len + 1];\n        std::vector<char*> args_ptr;\n        args_ptr_[0] = nullptr;\n", expect=["R15.13:cycle=Value::Value+Value::parse_args:no-vla-across-recursion"]),
+    dict(name="new-recursion-unreviewed", file="instance.cpp", find="bool Instance::rewind() {\n    if (env->pc == env->script.begin()) {\n        return false;\n    }", replace="bool Instance::rewind() {\n    if (env->pc == env->script.begin()) {\n        return false;\n    }\n    if (env->done && env->curr_op_seq > 100000) return rewind();", expect=["R15.13:cycle=Instance::rewind"]),
+    dict(name="addrprefix-unchecked", file="tap.cpp", find="ToLower(ca.m['p'])", replace="ca.m['p']", expect=["R15.7:char-precond=Encode(bech32_hrp)"]),
+    dict(name="default-prefix-upper-case", file="value.cpp", find='std::string bech32_hrp = "bcrt";', replace='std::string bech32_hrp = "BCRT";', expect=["R15.7:char-precond=Encode(bech32_hrp)"]),
     dict(name="listing-limit-grows-with-offset", file="btcdeb.cpp", find="snprintf(pbuf, 1024 - (pbuf - buf), \"%s\", GetOpName", replace="snprintf(pbuf, 1024 + pbuf - buf, \"%s\", GetOpName", expect=["R15.4:bounded-write:snprintf@main"]),
     dict(name="listing-limit-ignores-offset", file="btcdeb.cpp", find="snprintf(pbuf, 1024 - (pbuf - buf), \"%s\", HexStr", replace="snprintf(pbuf, 1024, \"%s\", HexStr", expect=["R15.4:bounded-write:snprintf@main"]),
     dict(name="format-buffer-too-small", file="functions.cpp", find="    snprintf(lfmt, 15, ", replace="    snprintf(lfmt, 16, ", expect=["R15.4:bounded-write:snprintf@print_dualstack"]),
